@@ -110,6 +110,10 @@ func (c *coalescing) Run(ctx context.Context, ch chan<- struct{}) error {
 
 	// Prevent wg race condition on Close and Run.
 	c.lock.Lock()
+	if c.closed.Load() {
+		c.lock.Unlock()
+		return nil
+	}
 	c.wg.Add(1)
 	c.lock.Unlock()
 	defer c.wg.Done()
@@ -225,6 +229,9 @@ func (c *coalescing) reset() {
 func (c *coalescing) Add() {
 	c.lock.Lock()
 	defer c.lock.Unlock()
+	if c.closed.Load() {
+		return
+	}
 	c.pendingEvents++
 	c.wg.Add(1)
 	go func() {
@@ -238,10 +245,13 @@ func (c *coalescing) Add() {
 
 func (c *coalescing) Close() {
 	defer func() {
-		// Prevent wg race condition on Close and Run.
+		// Prevent wg race condition on Close and Run: once closed is set, Run and
+		// Add no longer touch the wait group, and taking the lock once orders
+		// every earlier Run/Add before the wait. The lock must not be held while
+		// waiting: the run loop needs it to finish.
 		c.lock.Lock()
+		c.lock.Unlock() //nolint:staticcheck
 		c.wg.Wait()
-		c.lock.Unlock()
 	}()
 	if c.closed.CompareAndSwap(false, true) {
 		close(c.closeCh)
